@@ -162,14 +162,26 @@ func CheckC06(o *Outcome) []Problem {
 			// the input yet, treats the input as not its business and cleans the output up - the statement does not forbid that)
 			if o.Opts.PostponeRemoval && !o.Opts.Cached && c.fin && stage == "stage1" {
 				shadow := map[gp.Key]*gp.Snap{}
+				dropSeen := map[string]bool{} // the input carried a content without image at some point of the current output generation's life
 
 				for _, cm := range o.Log {
 					if cm.Seq >= o.HoldLiftedAt {
 						break
 					}
 
+					if cm.Key.Type == res.TypeA && cm.Post != nil && c.name == "QT" && DropToken(cm.Post.Token) {
+						dropSeen[cm.Key.ID] = true
+					}
+
+					if cm.Op == "create" && cm.Key.Type == c.outType {
+						if in := shadow[key(res.TypeA, cm.Key.ID)]; in == nil || !DropToken(in.Token) {
+							dropSeen[cm.Key.ID] = false
+						}
+					}
+
 					if cm.Op == "destroy" && cm.Key.Type == c.outType {
-						if in := shadow[key(res.TypeA, cm.Key.ID)]; in != nil && in.TearingDown() && slices.Contains(in.Fins, c.name) && !(c.name == "QT" && DropToken(in.Token)) {
+						// (an output removal decided for a content without image may still be in flight when the input is torn down)
+						if in := shadow[key(res.TypeA, cm.Key.ID)]; in != nil && in.TearingDown() && slices.Contains(in.Fins, c.name) && !dropSeen[cm.Key.ID] {
 							bad("output-destroyed-while-finalizer-removal-postponed", "%s: output %s/%s destroyed at %d while input is %s and the removal function postpones", c.name, c.outType[:1], cm.Key.ID, cm.Seq, desc(in))
 						}
 					}
